@@ -31,7 +31,7 @@ TAU = 2e-7
 TAU_FD = 2e-6
 
 DIMS = [
-    ("mol", ["LiHgc", "LiH", "HF", "H2O", "He", "Hed"]),  # base: generally contracted shells (NCTR = 2)
+    ("mol", ["LiHgc", "LiH", "HF", "H2O", "He", "Hed", "LiHgcp"]),  # base: generally contracted shells (NCTR = 2)
     ("fam", ["VIJ", "SL", "VJ", "VI", "VK", "SDMX", "VIJ+SDMX1", "VJ2", "VIJ2", "VI0", "SDMX1", "SDMXG", "SDMXG1",
              "SDMXFull", "SADM", "VK+SDMXG1", "FL", "FL0", "VJ+FL", "FL0+SDMX"]),
     ("sl", ["npa", "nst", "np", "ns"]),
@@ -74,6 +74,8 @@ def _tier_points(tier):
     pts = SPACE.deviations(1)
     pts += SPACE.product(["fam", "nspin"])
     pts += [p for p in SPACE.product(["fam"], fixed={"mol": "Hed"}) if "SDMX" in p["fam"] or p["fam"] in ("SADM", "VIJ")]
+    # generally contracted p shell (the SDMX contractions index AOs by shell, contraction and m)
+    pts += [p for p in SPACE.product(["fam"], fixed={"mol": "LiHgcp"}) if p["fam"] in ("SDMX", "SDMXG1", "SDMXFull", "SADM")]
     pts += SPACE.product(["mode", "nspin", "ev"], fixed={"fam": "VIJ"})
     pts += SPACE.product(["mode", "nspin", "base"], fixed={"fam": "SL"})
     pts += SPACE.product(["sl", "nspin", "fam"], fixed={})[:: 1 if tier == "thorough" else 3]
